@@ -265,12 +265,18 @@ class SymbolGraph(metaclass=SingletonMeta):
         """
         # a subclass that is reachable through several bases (diamond) is listed once per path
         classes = list(dict.fromkeys([type_] + recursive_subclasses(type_)))
-        for cls in classes:
-            for wrapped_instance in list(self._class_to_wrapped_instances[cls]):
-                instance = wrapped_instance.instance
-                # an instance may have died after the last sweep of dead instances
-                if instance is not None:
-                    yield instance
+        # the instances of all the classes as they are when the walk starts: instances that are created while it is
+        # under way are left out whatever their class is (not only the ones of a class the walk has passed already)
+        wrapped_instances = [
+            wrapped_instance
+            for cls in classes
+            for wrapped_instance in self._class_to_wrapped_instances[cls]
+        ]
+        for wrapped_instance in wrapped_instances:
+            instance = wrapped_instance.instance
+            # an instance may have died after the last sweep of dead instances
+            if instance is not None:
+                yield instance
 
     def get_wrapped_instance(self, instance: Any) -> Optional[WrappedInstance]:
         if isinstance(instance, WrappedInstance):
